@@ -1,6 +1,7 @@
 ---------------------------- MODULE MC_TotalitySeq ----------------------------
 (***************************************************************************)
 (* C08, G (i): EVERY token sequence of length <= MaxLen over sub-alphabets  *)
+(* (quick: alphabets 1-4 in one run; thorough: each of the 7 with its bound) *)
 (* of a token alphabet that spans the whole language surface:               *)
 (*   numbers (0, 2, the huge 1e309), identifiers (an unknown one, the unit  *)
 (*   m, the function sin), arithmetic operators, factorial, parentheses,    *)
@@ -50,9 +51,20 @@ Alphabets == <<
      Op("<", "lt"), Op("&&", "and"), Op("!", "bang"), St("\"a{2}b\"") >>,
   \* 4 lexical neighbourhood: dot, Unicode exponent, |>, per, %, typed hole, decorator, comment, newline (12 tokens)
   << Num("2"), Id("zq"), Id("m"), St("."), T("²", "uexp", "2"), Op("|>", "apply"), Op("per", "per"), St("%"),
-     St("?"), St("@"), St("#"), St("\n") >> >>
+     St("?"), St("@"), St("#"), St("\n") >>,
+  \* 5-7 (thorough tier: one token longer) 12-token sub-alphabets of the expression core:
+  \* 5 calls, conversions, powers and factorials
+  << Num("0"), Id("zq"), Id("m"), Id("sin"), Op("+", "plus"), Op("*", "mul"), Op("^", "pow"), Op("!", "bang"),
+     Op("(", "lp"), Op(")", "rp"), Op("->", "arrow"), Op(",", "comma") >>,
+  \* 6 lists, strings, the huge number, division and unary minus
+  << Num("2"), Num("1e309"), Id("m"), Op("-", "minus"), Op("/", "div"), Op("^", "pow"), Op("(", "lp"), Op(")", "rp"),
+     Op("[", "lb"), Op("]", "rb"), Op(",", "comma"), St("\"s\"") >>,
+  \* 7 operators only, with = and ->
+  << Num("0"), Num("2"), Id("zq"), Id("m"), Op("+", "plus"), Op("-", "minus"), Op("*", "mul"), Op("/", "div"),
+     Op("^", "pow"), Op("!", "bang"), St("="), Op("->", "arrow") >> >>
 
 NAlpha == Len(Alphabets)
+NQuick == 4          \* Alpha = 0: the first four alphabets in one run
 
 RECURSIVE Join(_)
 Join(ts) == IF ts = << >> THEN "" ELSE IF Len(ts) = 1 THEN ts[1].t ELSE ts[1].t \o " " \o Join(Tail(ts))
@@ -68,7 +80,7 @@ VARIABLES al, ks
 svars == <<al, ks, vars>>
 
 \* (the pipeline machine of Totality.tla is not run here: its variables stay in the initial state)
-SInit == /\ al \in (IF Alpha = 0 THEN 1..NAlpha ELSE {Alpha})
+SInit == /\ al \in (IF Alpha = 0 THEN 1..NQuick ELSE {Alpha})
          /\ ks = << >>
          /\ Init
 SNext == /\ Len(ks) < MaxLenOf(al)
